@@ -2,6 +2,7 @@ use crate::common::CheckSpec;
 
 pub mod c01;
 pub mod c02;
+pub mod c03;
 pub mod c05;
 pub mod c06;
 pub mod c07;
@@ -18,6 +19,7 @@ pub fn all() -> Vec<CheckSpec> {
     vec![
         c01::spec(),
         c02::spec(),
+        c03::spec(),
         c05::spec(),
         c06::spec(),
         c07::spec(),
